@@ -22,6 +22,10 @@ Section TyInd.
   Hypothesis HStruct : forall fs, Forall (fun f => P (snd f)) fs -> P (TyStruct fs).
   Hypothesis HElixir : forall m fs, Forall (fun f => P (snd f)) fs -> P (TyElixir m fs).
   Hypothesis HEnum : forall vs, Forall (fun f => P (snd f)) vs -> P (TyEnum vs).
+  Hypothesis HUnitStruct : forall n, P (TyUnitStruct n).
+  Hypothesis HNewtype : forall t, P t -> P (TyNewtype t).
+  Hypothesis HTupleStruct : forall ts, Forall P ts -> P (TyTupleStruct ts).
+  Hypothesis HBytes : P TyBytes.
   Hypothesis HPUnit : P PUnit.
   Hypothesis HPNewtype : forall t, P t -> P (PNewtype t).
   Hypothesis HPTuple : forall ts, Forall P ts -> P (PTuple ts).
@@ -42,6 +46,10 @@ Section TyInd.
     | TyStruct fs => HStruct fs (fields_ind fs)
     | TyElixir m fs => HElixir m fs (fields_ind fs)
     | TyEnum vs => HEnum vs (fields_ind vs)
+    | TyUnitStruct n => HUnitStruct n
+    | TyNewtype t' => HNewtype t' (ty_ind' t')
+    | TyTupleStruct ts => HTupleStruct ts (list_ind ts)
+    | TyBytes => HBytes
     | PUnit => HPUnit
     | PNewtype t' => HPNewtype t' (ty_ind' t')
     | PTuple ts => HPTuple ts (list_ind ts)
@@ -141,6 +149,8 @@ Section Facts.
 
   (* unfolding equations: the named functions are the local ones *)
   Lemma ser_tuple ts vs : ser (TyTuple ts) (RTup vs) = TTuple (ser_list ts vs).  Proof. reflexivity. Qed.
+  Lemma ser_tuplestruct ts vs : ser (TyTupleStruct ts) (RTup vs) = TTuple (ser_list ts vs).  Proof. reflexivity. Qed.
+  Lemma ser_newtype t v : ser (TyNewtype t) (RTup [v]) = ser t v.  Proof. reflexivity. Qed.
   Lemma ser_vec t vs : ser (TyVec t) (RSeq vs) = TList (ser_seq t vs).  Proof. reflexivity. Qed.
   Lemma ser_map kt vt kvs : ser (TyMap kt vt) (RMap kvs) = TMap (map_of_list cmp_owned (ser_kvs kt vt kvs)).  Proof. reflexivity. Qed.
   Lemma ser_struct fs vs : ser (TyStruct fs) (RRec vs) = TMap (map_of_list cmp_owned (ser_fields TBin fs vs)).  Proof. reflexivity. Qed.
@@ -157,6 +167,10 @@ Section Facts.
   Proof. reflexivity. Qed.
 
   Lemma de_tuple ts tm : de (TyTuple ts) tm = match tm with TTuple l => option_map RTup (de_list ts l) | _ => None end.
+  Proof. reflexivity. Qed.
+  Lemma de_tuplestruct ts tm : de (TyTupleStruct ts) tm = match tm with TTuple l => option_map RTup (de_list ts l) | _ => None end.
+  Proof. reflexivity. Qed.
+  Lemma de_newtype t tm : de (TyNewtype t) tm = option_map (fun v => RTup [v]) (de t tm).
   Proof. reflexivity. Qed.
   Lemma de_vec t tm : de (TyVec t) tm =
     match tm with TList l => option_map RSeq (all_some (map (de t) l)) | TNil => Some (RSeq []) | _ => None end.
@@ -194,6 +208,7 @@ Section Facts.
   Proof. reflexivity. Qed.
 
   Lemma wt_tuple ts vs : wt (TyTuple ts) (RTup vs) = wt_list ts vs.  Proof. reflexivity. Qed.
+  Lemma wt_tuplestruct ts vs : wt (TyTupleStruct ts) (RTup vs) = wt_list ts vs.  Proof. reflexivity. Qed.
   Lemma wt_vec t vs : wt (TyVec t) (RSeq vs) = wt_seq t vs.  Proof. reflexivity. Qed.
   Lemma wt_map kt vt kvs : wt (TyMap kt vt) (RMap kvs) = wt_kvs kt vt kvs.  Proof. reflexivity. Qed.
   Lemma wt_struct fs vs : wt (TyStruct fs) (RRec vs) =
@@ -220,6 +235,8 @@ Section Facts.
     match v, t with
     | RSome v', TyOption t' => canon t' v'
     | RTup vs, TyTuple ts => c_list ts vs
+    | RTup vs, TyTupleStruct ts => c_list ts vs
+    | RTup vs, TyNewtype t' => match vs with [v'] => canon t' v' | _ => True end
     | RSeq vs, TyVec t' => (fix go (vs : list rval) : Prop := match vs with [] => True | v' :: r => canon t' v' /\ go r end) vs
     | RMap kvs, TyMap kt vt =>
         map_of_list cmp_owned (ser_kvs kt vt kvs) = ser_kvs kt vt kvs /\
@@ -244,6 +261,7 @@ Section Facts.
   Definition c_kvs (kt vt : ty) := fix go (kvs : list (rval * rval)) : Prop :=
     match kvs with [] => True | (k', v') :: r => canon kt k' /\ canon vt v' /\ go r end.
   Lemma canon_tuple ts vs : canon (TyTuple ts) (RTup vs) = c_list ts vs.  Proof. reflexivity. Qed.
+  Lemma canon_tuplestruct ts vs : canon (TyTupleStruct ts) (RTup vs) = c_list ts vs.  Proof. reflexivity. Qed.
   Lemma canon_vec t vs : canon (TyVec t) (RSeq vs) = c_seq t vs.  Proof. reflexivity. Qed.
   Lemma canon_map kt vt kvs : canon (TyMap kt vt) (RMap kvs) =
     (map_of_list cmp_owned (ser_kvs kt vt kvs) = ser_kvs kt vt kvs /\ c_kvs kt vt kvs).  Proof. reflexivity. Qed.
@@ -277,10 +295,10 @@ Section Facts.
   Lemma norm_int_not_atom z : none_test (norm_int z) = false.
   Proof. unfold norm_int. destruct (in_i32 z); reflexivity. Qed.
 
-  Lemma not_none t v : may_none interop t = false -> wt t v = true ->
+  Lemma not_none t : forall v, may_none interop t = false -> wt t v = true ->
     none_test (ser t v) = false /\ none_test (norm (ser t v)) = false.
   Proof.
-    intros Hm Hw. destruct v; destruct t; try discriminate Hw; try discriminate Hm.
+    induction t using ty_ind'; intros v Hm Hw; destruct v; try discriminate Hw; try discriminate Hm.
     - cbn. destruct b, interop; split; reflexivity.
     - cbn [rser]. destruct k; cbn [ser_int norm]; try (split; [reflexivity|apply norm_int_not_atom]).
       destruct (z <=? 9223372036854775807)%Z; cbn [norm]; split; try reflexivity; apply norm_int_not_atom.
@@ -295,7 +313,7 @@ Section Facts.
     - rewrite ser_struct. split; reflexivity.
     - rewrite ser_elixir. split; reflexivity.
     - rewrite ser_enum. rewrite wt_enum in Hw. apply andb_prop in Hw as [_ Hw].
-      destruct (nth_opt variants idx) as [[name shape]|] eqn:En; [|discriminate Hw].
+      destruct (nth_opt vs idx) as [[name shape]|] eqn:En; [|discriminate Hw].
       destruct shape; try discriminate Hw.
       + (* unit variant: its name is not the none atom *)
         cbn [may_none] in Hm. pose proof (nth_opt_in _ _ _ En) as Hin.
@@ -304,9 +322,15 @@ Section Facts.
           exfalso. apply not_true_iff_false in Hm. apply Hm. apply existsb_exists.
           exists (name, PUnit). split; [exact Hin|exact E]. }
         cbn [norm none_test]. split; exact Hx.
-      + destruct vs as [|v' [|? ?]]; try discriminate Hw. split; reflexivity.
+      + destruct vs0 as [|v' [|? ?]]; try discriminate Hw. split; reflexivity.
       + split; reflexivity.
       + split; reflexivity.
+    - (* unit struct: its name is not the none atom *)
+      cbn [may_none] in Hm. cbn [rser norm none_test]. split; exact Hm.
+    - (* newtype struct: transparent *)
+      destruct vs as [|v' [|? ?]]; try discriminate Hw. rewrite ser_newtype. apply IHt; [exact Hm|exact Hw].
+    - rewrite ser_tuplestruct. split; reflexivity.
+    - split; reflexivity.
   Qed.
 
   (* ---------- leaves ---------- *)
@@ -370,6 +394,20 @@ Section Facts.
   Lemma RT_unit : RT TyUnit.
   Proof. intros v Hw _. destruct v; try discriminate Hw. split; reflexivity. Qed.
 
+  Lemma RT_unitstruct n : RT (TyUnitStruct n).
+  Proof.
+    intros v Hw _. destruct v; try discriminate Hw. cbn [rser norm rde].
+    rewrite eq_bytes_refl. split; reflexivity.
+  Qed.
+  Lemma RT_bytes : RT TyBytes.
+  Proof. intros v Hw _. destruct v; try discriminate Hw. split; reflexivity. Qed.
+  Lemma RT_newtype t : RT t -> RT (TyNewtype t).
+  Proof.
+    intros IH v Hw Hc. destruct v; try discriminate Hw. destruct vs as [|v' [|? ?]]; try discriminate Hw.
+    change (wt (TyNewtype t) (RTup [v'])) with (wt t v') in Hw. change (canon (TyNewtype t) (RTup [v'])) with (canon t v') in Hc.
+    destruct (IH v' Hw Hc) as [I1 I2]. rewrite ser_newtype, !de_newtype, I1, I2. split; reflexivity.
+  Qed.
+
   Lemma RT_option t : RT t -> RT (TyOption t).
   Proof.
     intros IH v Hw Hc. destruct v; try discriminate Hw.
@@ -397,6 +435,12 @@ Section Facts.
   Proof.
     intros IH v Hw Hc. destruct v; try discriminate Hw. rewrite wt_tuple in Hw. rewrite canon_tuple in Hc.
     destruct (de_list_ok ts IH vs Hw Hc) as [A B]. rewrite ser_tuple. cbn [norm]. rewrite !de_tuple, A, B. split; reflexivity.
+  Qed.
+
+  Lemma RT_tuplestruct ts : Forall RT ts -> RT (TyTupleStruct ts).
+  Proof.
+    intros IH v Hw Hc. destruct v; try discriminate Hw. rewrite wt_tuplestruct in Hw. rewrite canon_tuplestruct in Hc.
+    destruct (de_list_ok ts IH vs Hw Hc) as [A B]. rewrite ser_tuplestruct. cbn [norm]. rewrite !de_tuplestruct, A, B. split; reflexivity.
   Qed.
 
   Lemma de_seq_ok t : RT t -> forall vs, wt_seq t vs = true -> c_seq t vs ->
@@ -722,6 +766,10 @@ Section Facts.
     - split; [apply RT_struct; eapply Forall_impl; [|eassumption]; intros a Ha; exact (proj1 Ha)|exact I].
     - split; [apply RT_elixir; eapply Forall_impl; [|eassumption]; intros a Ha; exact (proj1 Ha)|exact I].
     - split; [apply RT_enum; assumption|exact I].
+    - split; [apply RT_unitstruct|exact I].
+    - split; [apply RT_newtype; exact (proj1 IHt)|exact I].
+    - split; [apply RT_tuplestruct; eapply Forall_impl; [|eassumption]; intros a Ha; exact (proj1 Ha)|exact I].
+    - split; [exact RT_bytes|exact I].
     - split; [apply RT_shape; intros []; reflexivity|exact I].
     - split; [apply RT_shape; intros []; reflexivity|exact (proj1 IHt)].
     - split; [apply RT_shape; intros []; reflexivity|eapply Forall_impl; [|eassumption]; intros a Ha; exact (proj1 Ha)].
